@@ -185,6 +185,7 @@ def gen_cases(tier, seed):
         add("random", "dense", m, n, 2 if not th else 8, size=1)
     for k_ in range(3):
         cases.append(dict(kind="native", src="native", m=0, n=0, lo=0, hi=0, seed=seed, k=k_))
+    cases.append(dict(kind="bufreuse", src="bufreuse", m=0, n=0, lo=0, hi=0, seed=seed))  # one instance, one buffer re-filled in place (mc/bufreuse.py)
     only = os.environ.get("VERIF_C18_ONLY")  # development aid (mutant triage): restrict to some kinds; never set in real runs
     if only:
         cases = [c for c in cases if c["kind"] in only.split(",")]
@@ -733,6 +734,17 @@ _RUN = dict(pcgrad=_run_pcgrad, pcgrad4=_run_pcgrad, graddrop=_run_graddrop, ran
 
 
 def run_case(case):
+    if case["kind"] == "bufreuse":
+        import torch
+        from torchjd import aggregation as T
+
+        from mc import bufreuse
+
+        r = bufreuse.run({"MGDA": lambda dt: T.MGDA(), "PCGrad": lambda dt: T.PCGrad(), "CAGrad(0.5)": lambda dt: T.CAGrad(c=0.5), "CAGrad(0)": lambda dt: T.CAGrad(c=0.0),
+                          "GradDrop": lambda dt: T.GradDrop(), "GradDrop|leak": lambda dt: T.GradDrop(leak=torch.tensor([0.0, 0.5, 1.0], dtype=dt)),
+                          "Random": lambda dt: T.Random()}, seeded=("PCGrad", "GradDrop", "GradDrop|leak", "Random"), tols={"CAGrad(0.5)": 1e-3, "CAGrad(0)": 1e-3})
+        r.update(maxima={}, counters={"cases:bufreuse": 1}, margin=0.0)
+        return r
     acc = _Acc()
     _RUN[case["kind"]](case, acc)
     acc.count(f"cases:{case['kind']}")
